@@ -3,6 +3,7 @@ package ep
 import (
 	"bufio"
 	"bytes"
+	"crypto/tls"
 	"fmt"
 	"io"
 	"net"
@@ -25,6 +26,8 @@ type Exchange struct {
 
 // Origin is a raw TCP origin answering by request id.
 type Origin struct {
+	// TLS is true when the listener speaks TLS: requests that arrive were sent over TLS.
+	TLS    bool
 	L      net.Listener
 	Rec    *core.Recorder
 	mu     sync.Mutex
@@ -42,6 +45,17 @@ func NewOrigin(rec *core.Recorder) (*Origin, error) {
 		return nil, err
 	}
 	o := &Origin{L: l, Rec: rec, ex: map[int]*Exchange{}, Seen: map[int]int{}}
+	go o.serve()
+	return o, nil
+}
+
+// NewTLSOrigin starts an origin that speaks TLS with the given certificate.
+func NewTLSOrigin(rec *core.Recorder, cert tls.Certificate) (*Origin, error) {
+	l, err := tls.Listen("tcp", "127.0.0.1:0", &tls.Config{Certificates: []tls.Certificate{cert}})
+	if err != nil {
+		return nil, err
+	}
+	o := &Origin{L: l, Rec: rec, ex: map[int]*Exchange{}, Seen: map[int]int{}, TLS: true}
 	go o.serve()
 	return o, nil
 }
@@ -133,7 +147,7 @@ func (o *Origin) handle(c net.Conn) {
 			// response byte; only the first arrival is an event of the specification
 			o.note("request %d arrived again (transport retry)", id)
 		} else {
-			o.Rec.Emit("oresp", "i", id, "k", k, "close", (e.Res.Close || e.Res.Framing == "close") && k == "ok", "ok", ok)
+			o.Rec.Emit("oresp", "i", id, "k", k, "close", (e.Res.Close || e.Res.Framing == "close") && k == "ok", "ok", ok, "tls", o.TLS)
 		}
 		raw := e.Res.Bytes(id)
 		if e.Res.Fault == "cut" {
@@ -281,6 +295,16 @@ func RunClient(proxyAddr string, rec *core.Recorder, ex []*Exchange, sched []Sch
 				mu.Unlock()
 				return
 			}
+			if m.Status() == 299 && len(m.Headers.Get("X-Verif-Hijack")) > 0 {
+				// written by the hijacking modifier itself, not by the proxy
+				rec.Emit("hjrecv")
+				mu.Lock()
+				lastClose = true
+				items++ // a scheduled wait for "the answer" is over: this is all the client will get
+				cond.Broadcast()
+				mu.Unlock()
+				continue
+			}
 			pos++
 			id := pos
 			k := "ok"
@@ -366,7 +390,7 @@ func RunClient(proxyAddr string, rec *core.Recorder, ex []*Exchange, sched []Sch
 			mu.Lock()
 			sentMethods = append(sentMethods, e.Req.Method)
 			mu.Unlock()
-			rec.Emit("csend", "i", op.I, "close", e.Req.Close)
+			rec.Emit("csend", "i", op.I, "close", e.Req.Close, "connect", e.Req.Method == "CONNECT")
 			if splitWrites > 1 && len(raw) > splitWrites {
 				step := len(raw) / splitWrites
 				for off := 0; off < len(raw); off += step {
@@ -391,8 +415,8 @@ func RunClient(proxyAddr string, rec *core.Recorder, ex []*Exchange, sched []Sch
 			mu.Lock()
 			sentMethods = append(sentMethods, e.Req.Method, n.Req.Method)
 			mu.Unlock()
-			rec.Emit("csend", "i", op.I, "close", e.Req.Close)
-			rec.Emit("csend", "i", op.I+1, "close", n.Req.Close)
+			rec.Emit("csend", "i", op.I, "close", e.Req.Close, "connect", false)
+			rec.Emit("csend", "i", op.I+1, "close", n.Req.Close, "connect", false)
 			conn.Write(append(append([]byte{}, e.Req.Bytes()...), nraw[:len(nraw)/2]...))
 		case "resthalf":
 			conn.Write(held)
